@@ -1027,6 +1027,23 @@ func (g *Gen) doReturn(x *ssa.Return) {
 		if label == "" {
 			label = fmt.Sprintf("%d", i+1)
 		}
+		if mask, ok := g.E.masks[fmt.Sprintf("%s#post:%s", g.key, label)]; ok && mask != nil {
+			// a recorded finding with a mask: the claim is "post OR mask" (so that any other violation of
+			// the same conjunct is still caught); the unmasked conjunct is probed to see whether the
+			// finding is still present
+			m, err := g.evalBool(env, mask)
+			if err != nil {
+				g.E.fatalf("known_findings mask for %s#post:%s: %v", g.key, label, err)
+			} else {
+				if o := g.oblige("post", label, "(or "+s+" "+m+")", x.Pos(), en.Text+"   [masked by known finding: "+mask.String()+"]"); o != nil {
+					o.Masked = true
+				}
+				if p := g.oblige("probe", label, s, x.Pos(), en.Text); p != nil {
+					p.Probe = true
+				}
+				continue
+			}
+		}
 		g.oblige("post", label, s, x.Pos(), en.Text)
 	}
 	g.frameObligations(x.Pos())
